@@ -466,8 +466,10 @@ struct Ack {
 
 pub fn run_c37(batch: &str, tape: &mut Tape, rep: &mut Report) {
     let seed = tape.draw(u64::MAX);
-    let rocks = batch == "restarts";
-    let snapshot_every = if batch == "snapshots" { Some(tape.range(3, 8)) } else { None };
+    // restarts-snapshots: crash/restart of RocksStore nodes that snapshot and purge aggressively, so a node also
+    // restarts right after building or installing a snapshot (the recovery path of C36 inside a live cluster)
+    let rocks = batch == "restarts" || batch == "restarts-snapshots";
+    let snapshot_every = if batch == "snapshots" || batch == "restarts-snapshots" { Some(tape.range(3, 8)) } else { None };
     let sim_secs = tape.range(30, 90);
     let faulty = batch != "healthy";
     let cfg_net = NetCfg {
